@@ -70,7 +70,7 @@ func NewEnv(prop, tier string) (*Env, error) {
 			e.Workers = n
 		}
 	}
-	budget := 240 * time.Second
+	budget := 600 * time.Second // quick: the slowest check takes ~100 s on an idle 16-core machine; the margin is for loaded ones
 	if tier == "thorough" {
 		budget = 30 * time.Minute
 	}
